@@ -861,6 +861,86 @@ fn drive_pairs(sink: &mut Sink, rng: &mut Rng, n: usize, corpus: &[String]) {
     }
 }
 
+/// Length sweep: every component at every length 0..=48 and around 64 / 128 / 256 / 1024 (inline vs heap
+/// small strings, capacity computations), with a plain, an upper-case and an escape-needing last character;
+/// 0..=40 qualifiers; parsed and built.
+fn drive_lengths(sink: &mut Sink, _rng: &mut Rng, n: usize) {
+    let mut lens: Vec<usize> = (0..=48).collect();
+    lens.extend([63, 64, 65, 127, 128, 129]);
+    if n >= 2 {
+        lens.extend([255, 256, 257, 1023, 1024]);
+    }
+    for &l in &lens {
+        for last in ["a", "A", " ", "é", "%41"] {
+            let body = |unit: &str| -> String {
+                if l == 0 {
+                    String::new()
+                } else {
+                    format!("{}{}", unit.repeat(l - 1), last)
+                }
+            };
+            let x = body("a");
+            let mut strings = vec![
+                format!("pkg:t/{}", x),
+                format!("pkg:t/{}/n", x),
+                format!("pkg:t/n@{}", x),
+                format!("pkg:t/n?k={}", x),
+                format!("pkg:t/n#{}", x),
+                format!("pkg:t/n?checksum={}:00", x),
+                format!("pkg:t/n?checksum=a:{}", body("0")),
+                format!("pkg:nuget/{}", x),
+                format!("pkg:pypi/{}", body("A_")),
+                format!("pkg:maven/{}/n", x),
+            ];
+            if last == "a" || last == "A" {
+                strings.push(format!("pkg:{}/n", x));
+                strings.push(format!("pkg:t/n?{}=v", x));
+                strings.push(format!("pkg:t/n?{}=v&{}=w", x, x.to_ascii_uppercase()));
+            }
+            for s in strings {
+                parse_all(sink, &s);
+            }
+            // the same through the builder (generic and typed)
+            if last != "%41" {
+                for (t, typed) in [("t", false), ("nuget", true), ("maven", true)] {
+                    if typed && !cfg!(feature = "pt") {
+                        continue;
+                    }
+                    let ops = vec![json!(["new", cps(t), cps(&x)]), json!(["with_namespace", cps(&x)]), json!(["with_version", cps(&x)]),
+                                   json!(["with_qualifier", cps("k"), cps(&x)]), json!(["with_subpath", cps(&x)])];
+                    let refs = [x.as_str()];
+                    let (out, back) = if typed {
+                        #[cfg(feature = "pt")]
+                        {
+                            let (o, c) = bseq_run::<purl::PackageType>(&ops);
+                            (o, c.as_ref().map(|c| replay::parse_outcome::<purl::PackageType>(c).0))
+                        }
+                        #[cfg(not(feature = "pt"))]
+                        {
+                            (Value::Null, None)
+                        }
+                    } else {
+                        let (o, c) = bseq_run::<String>(&ops);
+                        (o, c.as_ref().map(|c| replay::parse_outcome::<String>(c).0))
+                    };
+                    sink.emit(json!({"ev": "bseq", "sh": if typed { "typed" } else { "generic" }, "ops": ops, "out": for_tlc(&out),
+                                     "back": back.map(|b| for_tlc(&b)).unwrap_or(json!({"none": true})), "lc": lc_table(&refs)}));
+                }
+            }
+        }
+    }
+    // 0..=40 qualifiers, in descending key order in the input
+    for n in 0..=40usize {
+        let quals: Vec<String> = (0..n).rev().map(|i| format!("k{:02}=v{}", i, i)).collect();
+        let s = if n == 0 { "pkg:t/n".to_owned() } else { format!("pkg:t/n?{}", quals.join("&")) };
+        parse_all(sink, &s);
+        let algs: Vec<String> = (0..n).rev().map(|i| format!("A{:02}:0{}", i, i % 10)).collect();
+        if n > 0 {
+            parse_all(sink, &format!("pkg:t/n?checksum={}", algs.join(",")));
+        }
+    }
+}
+
 pub fn main(args: &[String]) {
     let Some(driver) = args.first() else {
         eprintln!("drive: missing driver name");
@@ -890,6 +970,7 @@ pub fn main(args: &[String]) {
         "checksum-ops" => drive_checksum_ops(&mut sink, &mut rng, n),
         "builder-ops" => drive_builder_ops(&mut sink, &mut rng, n),
         "big" => drive_big(&mut sink, &mut rng, n),
+        "lengths" => drive_lengths(&mut sink, &mut rng, n),
         #[cfg(feature = "pt")]
         "type-strings" => drive_type_strings(&mut sink, &mut rng, n),
         #[cfg(feature = "pt")]
